@@ -53,6 +53,9 @@ func (c *Conv) Init(n *onnx.NodeProto) error {
 		switch attr.GetName() {
 		case "auto_pad":
 			c.autoPad = AutoPadSetting(attr.GetS())
+			if c.autoPad != NotSet && c.autoPad != SameUpper && c.autoPad != SameLower && c.autoPad != Valid {
+				return ops.ErrInvalidAttribute(attr.GetName(), c)
+			}
 		case "dilations":
 			c.dilations, err = ops.AnyToIntSlice(attr.GetInts())
 			if err != nil {
